@@ -44,7 +44,7 @@ def separatorClassExpression : String := "/"
 def rootSeparatorExpression : String := "/"
 def semanticLiterals : List String := [".", ".."]
 
-/-! straight-line integer functions translated from the source by tools/rs2lean.py -/
+/-! helpers of the straight-line integer functions translated by tools/rs2lean.py (Wax/GeneratedBehavior.lean, GeneratedJoin.lean, GeneratedOps.lean) -/
 /-- `usize::MAX` on the 64-bit targets the crate is checked on -/
 def usizeMax : Nat := 2 ^ 64 - 1
 /-- `usize::saturating_sub` -/
@@ -55,24 +55,6 @@ def satAdd (a b : Nat) : Nat := if a + b ≤ usizeMax then a + b else usizeMax
 def checkedAddExpect (a b : Nat) : Nat := a + b
 /-- `a.checked_mul(b).expect(..)`: the product; the panic on overflow is the side condition `a * b ≤ usizeMax` -/
 def checkedMulExpect (a b : Nat) : Nat := a * b
-def depthMinMaxMax (self_min : Nat) (self_extent : Nat) : Nat :=
-  (satAdd self_min self_extent)
-def minAtPivot (self_0 : Nat) (pivot : Nat) : Nat :=
-  (satSub self_0 pivot)
-def maxAtPivot (self_0 : Nat) (pivot : Nat) : Nat :=
-  (satSub self_0 pivot)
-def minMaxAtPivot (self_min : Nat) (self_extent : Nat) (pivot : Nat) : Nat × Nat :=
-  ((satSub self_min pivot), (satSub (depthMinMaxMax self_min self_extent) pivot))
-def joinDepth (pathIsAbsolute : Bool) (joinedCount : Nat) (selfCount : Nat) : Nat :=
-  (let depth_1 := joinedCount; (let depth_2 := (if pathIsAbsolute then (checkedAddExpect depth_1 1) else (satSub depth_1 selfCount)); depth_2))
-def conjunctionUsize (self_v : Nat) (rhs : Nat) : Nat :=
-  (checkedAddExpect self_v rhs)
-def productUsize (self_v : Nat) (rhs : Nat) : Nat :=
-  (checkedMulExpect self_v rhs)
-def conjunctionNonZero (self_v : Nat) (rhs : Nat) : Nat :=
-  (checkedAddExpect self_v rhs)
-def productNonZero (self_v : Nat) (rhs : Nat) : Nat :=
-  (checkedMulExpect self_v rhs)
 
 -- obligations re-checked against the code as it is now
 theorem meta_eq_escapes : metaChars.all (literalEscapes.contains ·) && literalEscapes.all (metaChars.contains ·) = true := by decide
